@@ -275,6 +275,10 @@ func (check typecheck) binaryExpr(n *node) error {
 	_ = check.convertUntyped(c0, c1.typ)
 	_ = check.convertUntyped(c1, c0.typ)
 
+	// A constant operand has the precision of the type of the operation.
+	check.roundConst(c0, c1)
+	check.roundConst(c1, c0)
+
 	if isComparisonAction(a) {
 		return check.comparison(n)
 	}
@@ -286,6 +290,21 @@ func (check typecheck) binaryExpr(n *node) error {
 	t0 := c0.typ.TypeOf()
 
 	return check.op(binaryOpPredicates, a, n, c0, t0)
+}
+
+// roundConst rounds the value of the constant n, which may be an exact typed
+// constant expression, to the type of the non-constant operand o if that is
+// float32 or complex64.
+func (check typecheck) roundConst(n, o *node) {
+	if !n.rval.IsValid() || o.rval.IsValid() || o.typ == nil {
+		return
+	}
+	t := o.typ.TypeOf()
+	if t == nil || t.Kind() != reflect.Float32 && t.Kind() != reflect.Complex64 {
+		return
+	}
+	// A value already converted, which is not a constant.Value, is left unchanged.
+	n.rval, _ = check.convertConst(n.rval, t)
 }
 
 func zeroConst(n *node) bool {
